@@ -464,7 +464,11 @@ type l5ConcObs struct {
 	Evictions   int      `json:"evictions"`
 	// TxStray: driver calls made on behalf of a transaction on another connection than the
 	// transaction's; TxRuns: statements issued through transactions
-	TxStray int    `json:"txStray"`
+	// DupIDs: live Statements sharing a cache id; StmtEntriesLeft: Statement entries in the
+	// cache after everything was dropped and collected
+	DupIDs          int `json:"dupIDs"`
+	StmtEntriesLeft int `json:"stmtEntriesLeft"`
+	TxStray         int `json:"txStray"`
 	TxRuns  int    `json:"txRuns"`
 	Panic   string `json:"panic,omitempty"`
 }
@@ -490,9 +494,37 @@ func runL5Conc(r *rng.R, threads, perThread int) (obs *l5ConcObs) {
 	if txHeavy {
 		nS, nD = 1, 1
 	}
+	// the Statements of the run, and sixteen more that are only held until the end, are
+	// prepared at the same moment by as many goroutines: every one gets its own place in
+	// the cache (C11: "for all histories ... over several Statements")
 	stmts := make([]*sqlair.Statement, nS)
-	for i := range stmts {
-		stmts[i], _ = sqlair.Prepare(l5SQL, Row{}, zoo.Ints{}, zoo.Strs{})
+	extra := make([]*sqlair.Statement, 16)
+	{
+		startP := make(chan struct{})
+		var wgp sync.WaitGroup
+		for i := 0; i < nS+len(extra); i++ {
+			wgp.Add(1)
+			go func(i int) {
+				defer wgp.Done()
+				<-startP
+				s, _ := sqlair.Prepare(l5SQL, Row{}, zoo.Ints{}, zoo.Strs{})
+				if i < nS {
+					stmts[i] = s
+				} else {
+					extra[i-nS] = s
+				}
+			}(i)
+		}
+		close(startP)
+		wgp.Wait()
+		seenID := map[uint64]bool{}
+		for _, s := range append(append([]*sqlair.Statement{}, stmts...), extra...) {
+			id := hookStatementID(s)
+			if seenID[id] {
+				obs.DupIDs++
+			}
+			seenID[id] = true
+		}
 	}
 	type dbT struct {
 		db    *sqlair.DB
@@ -661,6 +693,9 @@ func runL5Conc(r *rng.R, threads, perThread int) (obs *l5ConcObs) {
 	for i := range stmts {
 		stmts[i] = nil
 	}
+	for i := range extra {
+		extra[i] = nil
+	}
 	for _, d := range dbs {
 		d.db = nil
 	}
@@ -678,6 +713,7 @@ func runL5Conc(r *rng.R, threads, perThread int) (obs *l5ConcObs) {
 			obs.CacheLeft++
 		}
 	}
+	obs.StmtEntriesLeft = cs.Statements
 	for _, st := range states {
 		obs.OpenStmts += st.OpenStmts()
 		obs.DoubleClose += st.DoubleClose
